@@ -42,6 +42,18 @@ WSumOK(cfg, e) ==
         e.got[1] = lg[1].tok * UFactor(cfg.comps[Src(cfg, lg[1].l)].u) * lg[2].tok
                    + lg[3].tok * UFactor(cfg.comps[Src(cfg, lg[3].l)].u) * lg[4].tok
 
+(* ... and that sum is the one for the requested time, whether or not the merger pulled for   *)
+(* this request: value and weight of every pair are the publications nearest to the time the  *)
+(* specification requests on that link (u.log), taken from the producers' full histories      *)
+WSumCanonOK(cfg, st, e, u) ==
+  LET c == e.c IN
+  (Len(cfg.comps[c].ins) = 1 /\ cfg.comps[Src(cfg, <<c, 1>>)].ws /\ Chain(cfg, <<c, 1>>) = <<>>
+   /\ Len(u.log) = 4 /\ (\A k \in 1..4 : u.log[k].ok /\ u.log[k].kind = "src") /\ Len(e.got) = 1) =>
+     LET P(k) == Src(cfg, u.log[k].l)
+         V(k) == {Tok(cfg, P(k), g) : g \in NearestSet(st.full[P(k)], u.log[k].t)}
+     IN \E a \in V(1), b \in V(2), x \in V(3), y \in V(4) :
+          e.got[1] = a * UFactor(cfg.comps[P(1)].u) * b + x * UFactor(cfg.comps[P(3)].u) * y
+
 (* requests that a pull-based component made to its own inputs; a merger   *)
 (* that memoises per request time may answer a repeated request without     *)
 (* pulling again: its requests are then absent as a whole                   *)
@@ -74,7 +86,7 @@ UpdVerdict(cfg, st, e, u, k) ==
   ELSE IF ~ProviderOK(cfg, ProjLog(e.log), ProjLog(u.log)) THEN Fail("delay-shift", k)
   ELSE IF ProjSet(e.nlog) # ProjSet(u.nlog) THEN Fail("delay-shift-notify", k)
   ELSE IF ~CanonOK(cfg, st, e) THEN Fail("canon", k)
-  ELSE IF ~WSumOK(cfg, e) THEN Fail("weighted-sum", k)
+  ELSE IF ~WSumOK(cfg, e) \/ ~WSumCanonOK(cfg, st, e, u) THEN Fail("weighted-sum", k)
   ELSE IF ~TimeEq(cfg, u.s, e.snap) THEN Fail("times", k)
   ELSE IF ~PubsEq(cfg, u.s, e.snap) THEN Fail("retained", k)
   ELSE IF e.snap.stray # 0 THEN Fail("files-in-location", k)
